@@ -91,7 +91,7 @@ int snoopy_util_file_getSmallTextFileContent (char const * const filePath, char 
 
 
     // Open
-    fileHandle = fopen(filePath, "r");
+    fileHandle = fopen(filePath, "re");
     if (fileHandle == NULL) {
         free(contentPtr);
         contentPtr = malloc(SNOOPY_UTIL_FILE__ERROR_MSG_MAX_SIZE);
